@@ -19,6 +19,15 @@ RULE = ('compute_features on generated signals at 8 sampling rates (the wide C01
         'before the judged analysis; a read-only case passes the rescaled array read-only as well (an in-place '
         'rescaling unlocks the array for the edit only); all oracles and the model comparison apply to the judged '
         'analysis unchanged (counters in the evidence). '
+        '~15 % of the cases (kind +len, drawn from a generator seeded with the case content; all other cases are '
+        'unchanged) have fs, the band (f_lo, 2 f_lo, rhythm inside) and one length option re-chosen from a table '
+        'derived by search, so that a length the analysis converts to samples with a ceil -- fs * n_cycles / '
+        'f_lo or fs * n_seconds of the extrema filter, of the band_amp envelope (3 cycles; n_cycles of a direct '
+        "compute_shape_features call) or of the detector's filter, min_n_cycles * fs / f_lo or "
+        'min_burst_duration * fs of the detector -- is exactly an odd / even integer or one ulp beside one, in '
+        '80 % where the mathematically equivalent binary64 computations of it disagree after the ceil; half of '
+        "these cases with broadband noise added to the samples (+rough); reference kernels get the caller's "
+        'arguments as they are.  '
         'rescaled and fs-replayed tables compared; each base table compared with the Coq pipeline model (which has no fs '
         'argument at all); non-trivial = >= 3 rows and a label of each value')
 ASSUMPTIONS = ['power-of-two amplitude factors (exact in binary64 absent over/underflow)',
